@@ -75,6 +75,7 @@ class Plan:
         self.trusted = ["Kani 0.68 MIR->GOTO translation", "CBMC 6.11 IEEE-754 bit-level float encoding",
                         "CaDiCaL (SAT)", "rustc (kani toolchain)"]
         self.extra_builds = []
+        self.max_jobs = None     # cap on concurrent CBMC processes for memory-hungry families
         self.late = None         # callable(ctx, plan): add modules/harnesses once the native constants are known   # additional (tag, plan-like) builds, e.g. --no-default-features
 
 
@@ -136,7 +137,7 @@ def run_property(pid, tier, seed, jobs):
                 log("INCONCLUSIVE: harness build failed (a private item the harness names may have changed)\n" + str(e)[-4000:])
                 inconclusive.append("harness build failed")
                 plan.harnesses = []
-        results = engine.run_all(ov, metas, plan.harnesses, jobs) if plan.harnesses else {}
+        results = engine.run_all(ov, metas, plan.harnesses, min(jobs, plan.max_jobs) if plan.max_jobs else jobs) if plan.harnesses else {}
         ctx.results = results
         # ---- classify harness results
         nrep = 0
